@@ -894,7 +894,11 @@ func c15RunJSON(input []byte) (err error, stop int, units int) {
 }
 
 var c15IllegalJSON = []string{"#", "@", "\x00", "\x01", "x", "©", "\x80", "'", "=", "\u2028"}
-var c15IllegalJS = []string{"@", "\x00", "\x01", "\x7f", "©", "\x80", "€"}
+var c15IllegalJS = []string{"@", "\x00", "\x01", "\x7f", "©", "\x80", "€", "\\"}
+
+func c15IsHex(c byte) bool {
+	return c >= '0' && c <= '9' || c >= 'a' && c <= 'f' || c >= 'A' && c <= 'F'
+}
 
 func c15IsWordTok(s string) bool {
 	if s == "" {
@@ -969,7 +973,7 @@ func c15GenJSStmt(r *Rng, depth int, out *[]string) {
 		c15GenJSExpr(r, 1, out)
 		*out = append(*out, ";")
 	case k < 6 || depth > 2:
-		*out = append(*out, []string{"x", "y"}[r.Intn(2)], "=")
+		*out = append(*out, []string{"x", "y", "u", "url", "undefined", "use"}[r.Intn(6)], "=")
 		c15GenJSExpr(r, 1, out)
 		*out = append(*out, ";")
 	case k < 7:
@@ -1062,6 +1066,9 @@ func c15ErrorOracle(r *Rng, tier string, rep *Report) {
 		}
 		for _, at := range c15BoundaryPoints(doc, starts, ends) {
 			for _, ill := range c15IllegalJS {
+				if ill == "\\" && at+1 < len(doc) && doc[at] == 'u' && (doc[at+1] == '{' || c15IsHex(doc[at+1])) {
+					continue // a backslash there could start a valid unicode escape
+				}
 				input := c15InsertAt(doc, at, ill)
 				var err error
 				if p := catch(func() { _, err = js.Parse(parse.NewInputBytes(append([]byte{}, input...)), opts) }); p != nil {
